@@ -24,6 +24,7 @@ RULE = ('(a) every nesting shape of {if, if-else, if-elif, if-elif-else, while, 
         'Oracle: parse_script+execute_script vs. the independent big-step interpreter: outcome kind, return value, exact log/probe event '
         'sequence, final user globals. Non-trivial: nesting depth >= 2, some loop ran >= 2 iterations, and a break/continue was taken or an '
         'elif/else branch ran or a function returned from inside a loop. Distinct by source text + globals.')
+RULE += ' Also (after four rounds of seeded changes): identifiers that begin with a keyword or contain non-ASCII letters, a function name defined twice / re-bound to a plain value / defined again in a loop, repeated parameter names, outer loops of 6-13 iterations, `while <literal>:` loops, `async function`, calls to spreadsheet aliases (undefined in scripts); every 4th program is also run without caller-supplied globals (after a run that leaves every generator name behind) and must equal the run from an empty globals object. Programs whose values explode (reference run with a 4 096-element size limit) are regenerated.'
 ASSUMPTIONS = [
     'names with the reserved __bareScript prefix, the final value of for-index variables and library functions injected into the globals '
     'are not part of "final global variables"',
